@@ -772,7 +772,7 @@ class TT():
                     'Second operand must be the same type as the fisrt (both should be either TT matrices or TT tensors).')
             result = TT(cores_new)
 
-        elif isinstance(other, int) or isinstance(other, float) or isinstance(other, complex) or isinstance(other, tn.Tensor):
+        elif isinstance(other, int) or isinstance(other, float) or isinstance(other, complex) or isinstance(other, tn.Tensor) or (np.isscalar(other) and not isinstance(other, (str, bytes))):
             # (the rank one zero tensor is a shortcut for constants only: it would cut the autograd graph)
             if other != 0 or (tn.is_tensor(other) and other.requires_grad) or any(c.requires_grad for c in self.cores):
                 cores_new = [c+0 for c in self.cores]
@@ -940,7 +940,7 @@ class TT():
         if tn.is_tensor(other) and other.numel() != 1:
             raise InvalidArguments(
                 'Operand not permitted. A TT-object can be divided only with scalars.')
-        if isinstance(other, int) or isinstance(other, float) or tn.is_tensor(other):
+        if isinstance(other, int) or isinstance(other, float) or isinstance(other, complex) or tn.is_tensor(other) or (np.isscalar(other) and not isinstance(other, (str, bytes))):
             # divide by a scalar
             cores_new = self.cores.copy()
             cores_new[0] = cores_new[0] / other
